@@ -407,3 +407,60 @@ def fam_get(tier):
         out += pack("gw" if ws else "gp", rules, 8, header=h, alphabet=cps("abcd- ") if ws else cps("abcd-"), maxlen=3 if tier == "quick" else 4,
                     inputs=[cps(s) for s in ["abab", "aaaa", "a-a", "a-b-a", "-a-a-", "abaab", "a b a", "aa a", "a - a", "caca", "dad", "ababa"]])
     return out
+
+
+# ------------------------------------------------------------------------------------------------
+def _unescape_rust(s):
+    try:
+        return bytes(s, "utf-8").decode("unicode_escape").encode("latin-1").decode("utf-8")
+    except Exception:
+        return s
+
+
+def fam_repo(tier):
+    """The repository's own grammars with the literal inputs of its test-suite ("validate what the existing tests exercise")."""
+    import re
+    out = []
+    base = "/repo/derive/tests"
+    def literals(src):
+        lits = set()
+        for m in re.finditer(r'"((?:[^"\\]|\\.)*)"', src):
+            s = _unescape_rust(m.group(1))
+            if len(s) <= 40 and "\n  " not in s:
+                lits.add(s)
+        return lits
+    try:
+        gtext = open(os.path.join(base, "grammar.pest")).read()
+        gtext = re.sub(r"#\w+\s*=\s*", "", gtext)        # node tags need the grammar-extras feature
+        src = open(os.path.join(base, "grammar_typed.rs")).read()
+        ins = set(m for m in re.findall(r'input:\s*"((?:[^"\\]|\\.)*)"', src))
+        ins = {_unescape_rust(s) for s in ins}
+        ins |= {"abc abc abc", "abc$$abc", "abc $ abc", "a,b,c,cba", "a,b,c,cb", "0123", "01 ", "ab", "", "abcabcabcabc", "abc   abc   abc", "\r\n\n\r"}
+        g = dict(id="rp0", text=gtext, alphabet=[], maxlen=0, inputs=[cps(s) for s in sorted(ins)])
+        out.append(g)
+    except OSError:
+        pass
+    for fn in ["skip.rs", "peek-1.rs", "peek-2.rs", "tree.rs", "inter_reference.rs", "inputs.rs", "sequence.rs", "long.rs"]:
+        try:
+            src = open(os.path.join(base, fn)).read()
+        except OSError:
+            continue
+        m = re.search(r'#\[grammar_inline\s*=\s*r#"(.*?)"#\]', src, re.S)
+        if not m:
+            continue
+        lits = literals(src[m.end():])
+        gid = "rp_" + re.sub(r"\W", "", fn[:-3])
+        out.append(dict(id=gid, text=m.group(1), alphabet=[], maxlen=0, inputs=[cps(s) for s in sorted(lits)][:60]))
+    try:
+        csv = open("/repo/derive/examples/csv.pest").read()
+        out.append(dict(id="rp_csv", text=csv, alphabet=[], maxlen=0,
+                        inputs=[cps(s) for s in ["1,2\n", "65279,1179403647,1463895090\n3.1415927,2.7182817,1.618034\n", "1,\n", "-273.15,12\n", ",", "1,2", "1.5,2\n3\n", ""]]))
+    except OSError:
+        pass
+    # keep what pest accepts (the derive would refuse the rest anyway)
+    read = peg.pest_read(out, "repo_f")
+    keep = []
+    for g, r in zip(out, read):
+        if r.get("valid") and not r.get("pairs_errors"):
+            keep.append(g)
+    return keep
